@@ -280,13 +280,20 @@ func c16Laws(c *Case) {
 	// pluck: exactly the requested key set, original unchanged
 	for k := 0; k < 4; k++ {
 		o := map[string]any{}
-		keys := []string{"a", "b", "length", "x", "é"}
+		keys := []string{"a", "b", "length", "x", "é", "user.name", "a.b"}
 		for i := rng.IntN(6); i > 0; i-- {
 			o[keys[rng.IntN(len(keys))]] = float64(rng.IntN(9))
 		}
+		// nested objects: a requested key names an own key of the receiver and nothing else (no paths)
+		if rng.IntN(2) == 0 {
+			o["user"] = map[string]any{"name": "ann", "a": map[string]any{"b": 1.0}}
+		}
+		if rng.IntN(3) == 0 {
+			o["a"] = map[string]any{"b": map[string]any{"c": 2.0}, "length": 5.0}
+		}
 		var req []string
 		for i := 1 + rng.IntN(4); i > 0; i-- {
-			req = append(req, append(keys, "nope", "pluck")[rng.IntN(len(keys)+2)])
+			req = append(req, append(keys, "nope", "pluck", "user.name", "a.b", "a.b.c", "user", "user.a.b", "a.length", ".", "user.", ".name")[rng.IntN(len(keys)+11)])
 		}
 		var sb strings.Builder
 		for i, r := range req {
@@ -322,6 +329,42 @@ func c16Laws(c *Case) {
 			sort.Strings(ks)
 			c.Violation(fmt.Sprintf("pluck law: %s on %s gave keys %v = %s (want %s), original afterwards %s", prog, jsonBytes(o), ks, jsonBytes(got), jsonBytes(want), jsonBytes(a[1])), nil, nil)
 		} else {
+			c.Held()
+		}
+	}
+}
+
+// methods called directly on an expression that yields a value which was never stored in a variable: a character of
+// a string, a call result, a parenthesised expression, a literal, a method result (never a crash; string methods on
+// single characters against Go's strings package)
+func c16DirectReceivers(c *Case) {
+	recvs := []string{"'Qx'[0]", "'Qx'[1]", "$.s[0]", "$.s[2]", "s[1]", "pick($.s)[0]", "first($.s)", "('a' + 'B')", "('ab')[0]", "$.s.upper()[0]", "$.s.split('')[0]", "$.list[0][0]", "[$.s][0][1]", "{k: $.s}.k[0]", "'é日'[0]", "$.s[99]", "$.n", "($.n + 0.5)", "[1, 2]", "$.list", "{a: 1}", "null", "true"}
+	meths := []string{"upper()", "lower()", "length()", "split('')", "split('x')", "floor()", "ceil()", "round()", "contains(1)", "push(1)", "pop()", "sort()", "pluck('a')", "upper().lower().length()"}
+	for _, r := range recvs {
+		for _, m := range meths {
+			prog := "function pick(v) { return v } function first(v) { return v[0] } { s = $.s; print 'pre'; print " + r + "." + m + "; print 'post' }"
+			lib := RunLib(prog, []InFile{{Name: "in", Data: []byte(`{"s": "Hello", "n": 2.5, "list": ["Wx", "yz"]}`)}}, nil, RunOpts{Budget: 100000})
+			c.NonTrivial("direct:" + r + "." + m)
+			c.Count("direct_receiver_calls")
+			if lib.Class != "ok" && lib.Class != "runtime" {
+				c.Violation(fmt.Sprintf("%s.%s ended as %s (%s %s)", r, m, lib.Class, lib.Msg, lib.PanicVal), nil, map[string]any{"program": prog})
+				continue
+			}
+			out := string(lib.Stdout)
+			if !strings.HasPrefix(out, "pre\n") {
+				c.Violation(fmt.Sprintf("%s.%s: earlier output lost: %q", r, m, clip(out, 60)), nil, map[string]any{"program": prog})
+				continue
+			}
+			// the plain string cases have a closed-form answer
+			want := map[string]string{"'Qx'[0].upper()": "Q", "'Qx'[0].lower()": "q", "'Qx'[1].upper()": "X", "$.s[0].lower()": "h", "$.s[2].upper()": "L", "s[1].upper()": "E", "'Qx'[0].length()": "1",
+				"first($.s).lower()": "h", "pick($.s)[0].lower()": "h", "('a' + 'B').upper()": "AB", "('a' + 'B').length()": "2", "$.s.upper()[0].lower()": "h", "$.list[0][0].lower()": "w", "[$.s][0][1].upper()": "E", "{k: $.s}.k[0].lower()": "h",
+				"('ab')[0].upper()": "A", "$.s.split('')[0].lower()": "h", "'Qx'[0].upper().lower().length()": "1"}
+			if w, ok := want[r+"."+m]; ok {
+				if lib.Class != "ok" || out != "pre\n"+w+"\npost\n" {
+					c.Violation(fmt.Sprintf("%s.%s: want %q, got %s (%s) %q", r, m, w, lib.Class, lib.Msg, clip(out, 60)), nil, map[string]any{"program": prog})
+					continue
+				}
+			}
 			c.Held()
 		}
 	}
@@ -411,6 +454,9 @@ func c16Run(c *Case) {
 	switch {
 	case c.Idx < nm:
 		c16Matrix(c, c.Idx)
+		if c.Idx == 0 {
+			c16DirectReceivers(c)
+		}
 	case c.Idx < nm+ns:
 		c16Sampled(c)
 		if c.Idx == nm {
@@ -425,7 +471,7 @@ func c16Run(c *Case) {
 func init() {
 	register(&Prop{
 		ID: "C16", Level: "exploration",
-		Rule:          "enumerated: 13 methods + 3 builtins x 32 receiver values (all 10 kinds) x 9 argument lists (0-3 arguments of several kinds): result vs reference, and never a panic; sampled: receivers/arguments supplied through the input document so every UTF-8 string is reachable (multi-byte, separators at the ends / repeated / overlapping / empty / longer than the subject; doubles at and around halves, beyond 2^53, tiny; objects and key lists with present/absent/repeated keys and the method names length/pluck; numeric and non-numeric spellings for num) compared with reference functions; algebraic laws checked on the implementation's output alone (split pieces/join, floor<=x<=ceil, round half away, case idempotence, byte length, pluck key set and immutability, also over 2-5 records in one run whose results are each modified after the call, num(str(x))==x). Non-trivial = non-ASCII / separator at an end or empty / non-integral number / absent key; distinct by call+document.",
+		Rule:          "enumerated: 13 methods + 3 builtins x 32 receiver values (all 10 kinds) x 9 argument lists (0-3 arguments of several kinds): result vs reference, and never a panic; 14 methods called directly on 23 receiver expressions that were never stored (a character of a string, a call result, a parenthesised expression, a literal, a method result): never a crash, closed-form results for the string cases; sampled: receivers/arguments supplied through the input document so every UTF-8 string is reachable (multi-byte, separators at the ends / repeated / overlapping / empty / longer than the subject; doubles at and around halves, beyond 2^53, tiny; objects and key lists with present/absent/repeated keys and the method names length/pluck; numeric and non-numeric spellings for num) compared with reference functions; algebraic laws checked on the implementation's output alone (split pieces/join, floor<=x<=ceil, round half away, case idempotence, byte length, pluck key set (also for keys with dots over nested objects: a key names an own key, never a path) and immutability, also over 2-5 records in one run whose results are each modified after the call, num(str(x))==x). Non-trivial = non-ASCII / separator at an end or empty / non-integral number / absent key; distinct by call+document.",
 		NumCases:      c16Cases,
 		Run:           c16Run,
 		MinConclusive: func(tier string) int { return 5000 },
